@@ -924,6 +924,8 @@ PROPS["C17"] = {
         "Lace.C17.span_starts_at_statement_token",
         "Lace.C17.span_covers_operands_holds",
         "Lace.C17.multiword_share_span_holds",
+        "Lace.C17.span_inside_source_holds",
+        "Lace.C17.show_single_line_no_panic",
         "Lace.C17.span_text_eq_statement_partial",
         "Lace.C17.no_statement_no_text",
         "Lace.C17.statement_text",
